@@ -36,7 +36,9 @@ def _protect_if_unchanged(attr_spec: Attr, instance, value, inplace: bool):
         or attr_spec.do_not_copy
         or instance.__spec_class__.do_not_copy
         or value is MISSING
-        or value is not instance.__dict__.get(attr_spec.name, MISSING)
+        # (Looked up as the helpers do: the attribute may be stored elsewhere,
+        # e.g. behind a property or an alias.)
+        or value is not getattr(instance, attr_spec.name, MISSING)
     ):
         return value
     return protect_via_deepcopy(value)
